@@ -67,6 +67,11 @@ func templates() []template {
 			[]fragDef{{"A", "User", []*node{f("id", -1), sp("B", 1)}}, {"B", "User", []*node{f("name", 2), f("age", -1)}}}, 3},
 		{"union-nested-spread-rev", []*node{f("things", -1, f("__typename", -1), sp("Z", 0), on("Item", -1, f("id", -1)))},
 			[]fragDef{{"Z", "User", []*node{f("id", -1), sp("B", 1)}}, {"B", "User", []*node{f("name", 2), f("age", -1)}}}, 3},
+		// one member fragment under two union parents, only one of which selects the union's own __typename
+		{"union-typename-one-site", []*node{f("things", -1, f("t: __typename", -1), sp("UF", 0), on("Item", -1, f("id", -1))), f("thing(i: 0)", -1, sp("UF", 1))},
+			[]fragDef{{"UF", "User", []*node{f("name", 2), f("id", -1)}}}, 3},
+		{"union-typename-one-site-rev", []*node{f("thing(i: 0)", -1, sp("UF", 1)), f("things", -1, f("__typename", -1), sp("UF", 0), on("Item", -1, f("id", -1)))},
+			[]fragDef{{"UF", "User", []*node{f("name", 2), f("id", -1)}}}, 3},
 		{"args-and-alias", []*node{f("u: user(id: 2)", 0, f("n: name", 1), f("id", -1)), f("c: count", 2), f("count", -1)}, nil, 3},
 		{"fav-union-nested", []*node{f("users", -1, f("id", -1), f("fav", 0, f("__typename", -1), on("Item", 1, f("name", -1)), on("User", 2, f("name", -1))))}, nil, 3},
 	}
